@@ -484,17 +484,20 @@ class C06(Spec):
     generators = ('Life',)
     harness_flags = ('-Wl,--wrap=free',)
     harness_timeout = 300
-    technique = ('Lean 4 proof by induction over histories with a nested induction over destructor cascades (source-derived switches regenerated each run): model of '
+    technique = ('Lean 4 proof by induction over histories with a nested induction over destructor cascades — an exact-effect invariant for exactly-once, '
+                 'a potential-object invariant (what is in no table never comes back; what enters has a fresh identity) for safety under nested collections — '
+                 '(source-derived switches regenerated each run): model of '
                  'GC_Set/GC_Rem/GC_Rem_Ptr/GC_Sweep/GC_Del/alloc_by/dealloc/del_by/Box_Del and of destructors that allocate (nested collections on the '
                  'collector\'s one pending list) with ledger; differential check of the model against '
                  'the real collector (destructor ledger, pending list, registry) on generated histories')
-    level_text = ('Theorems C06_exactly_once(_alloc) / C06_no_double_partial / C06_collect_respects_marks: for every history of new/new_root/new_raw, '
+    level_text = ('Theorem C06_no_double (+ C06_ledger_only_grows, C06_registered_inert): for EVERY well-formed history of new/new_root/new_raw, '
                   'alloc/alloc_root/alloc_raw, del/del_root/del_raw, dealloc_raw(destruct), ownership links, collections with any marked set and any '
-                  'slot order, and teardown, in which no destructor allocates, the model of '
-                  'the collector finalises and releases every object exactly once (collector running; roots and raws deleted by the program), '
-                  'never twice under any such history including stop/start windows, and never an object of the marked set of the collection '
-                  '(under the sole-ownership obligation). Histories with allocating destructors and dealloc of registered objects are in the '
-                  'history language; on them the full statements are refuted on witnesses (known findings). '
+                  'slot order, stop/start, teardown and destructors that allocate (nested collections on the pending list of the sweep in progress '
+                  'included), the model of the collector never finalises or releases an object twice and never releases one that was not finalised. '
+                  'Theorems C06_exactly_once(_alloc/_windows) / C06_collect_respects_marks: in the histories in which no destructor allocates, it '
+                  'finalises and releases every object exactly once (collector running; roots and raws deleted by the program), '
+                  'and never an object of the marked set of the collection (under the sole-ownership obligation). '
+                  'For histories with allocating destructors, and for dealloc of registered objects, the exactly-once statements are refuted on witnesses (known findings). '
                   'The model is tied to the real GC.c/Alloc.c/Pointer.c by running thousands of histories on both (event sequences, pending '
                   'lists, registry contents, mitems), in main and worker threads, with an independent ledger oracle and ASan.')
     level_note = ('Trusted: Lean kernel; the harness/driver comparison (testing); registry layout is abstract (C17), the mark phase is a '
